@@ -662,6 +662,17 @@ def c20(run):
         path, cnt = run.records(st)
         run.replay("reg", path, name="reg-" + st["cfg"], timeout_ms=8000)
     run.add_samples(path, 2)
+    # histories of ANY length: the registry invariant is inductive (Apalache)
+    obligations = [("base", ["--cinit=CInit", "--init=Init", "--inv=IndInv", "--length=0"]),
+                   ("step", ["--cinit=CInit", "--init=IndInit", "--inv=IndInv", "--length=1"]),
+                   ("first-wins", ["--cinit=CInit", "--init=IndInit", "--inv=FirstWins", "--length=1"])]
+    discharged = 0
+    for oname, oargs in obligations:
+        if run.apalache("RegInd", oargs, "RegInd_" + oname):
+            discharged += 1
+        else:
+            raise vp.Infra("Apalache found a counterexample to %s on the intended registry model (a model bug)" % oname)
+    run.notes.append("Apalache: IndInv is inductive and implies FirstWins for unbounded histories (%d/%d obligations)" % (discharged, len(obligations)))
     st = run.tlc("MC_Builtins", text_cfg("conv").replace("INVARIANTS Gen", "INVARIANTS Total Gen"), name="MC_Builtins_conv",
                  timeout=1500, workers=2)
     conv, cnt = run.records(st)
@@ -676,8 +687,10 @@ def c20(run):
                      "each history after VerifReset with functions whose canned result identifies the registration, "
                      "and checks the registry snapshot; a conversion family passes every value kind (nested arrays / "
                      "objects, nil, the int64 bounds) as receiver and arguments to recording functions and compares "
-                     "the Go types and values received, and the printed result with the same value passed as data",
-                     exhaustive=True)
+                     "the Go types and values received, and the printed result with the same value passed as data; "
+                     "spec/RegInd.tla: the registry invariant is proved inductive by Apalache (histories of any length)",
+                     exhaustive=True, extra={"obligations": len(obligations), "discharged": discharged,
+                                             "checker_cmd": "apalache-mc check --init=IndInit --inv=IndInv --length=1 spec/RegInd.tla"})
 
 
 TRACE_API_CFG = """CONSTANTS
@@ -752,6 +765,9 @@ def selftest(args):
             hit = re.search(pat, out) is not None
             print("dev-switch %-10s %-40s -> %s" % (mod, what, "violation found (expected)" if hit else "NO VIOLATION (vacuous!)"))
             ok = ok and hit
+        hit = not run.apalache("RegInd", ["--cinit=CInitDev", "--init=IndInit", "--inv=FirstWins", "--length=1"], "RegInd_dev")
+        print("dev-switch RegInd     later registration replaces the first      -> %s" % ("counterexample found (expected)" if hit else "NO VIOLATION (vacuous!)"))
+        ok = ok and hit
         # trace binding: lexer
         base = os.path.join(run.dir, "st.ndjson")
         run.harness_cmd(["lextrace", "-fixtures", vp.REPO, "-random", "40", "-out", base, "-shards", "1"])
